@@ -2,7 +2,7 @@ From Coq Require Import List NArith Bool.
 From V.gen Require Consts.
 From V.C03 Require Import Model Msg Proofs UviProofs LsProofs WebRtc WebRtcProofs Fallback.
 From V.C03 Require Import MsgRef MsgProofs MsgInv Chan Dir SimD SimL SimSys BytesThm LazyThm.
-From V.C03 Require Import Work Work2 Live Timed TimedProofs NegOps LazyBytes Compose.
+From V.C03 Require Import Work Work2 Live Timed TimedProofs Survivor NegOps LazyBytes Compose Sub SubProofs.
 Import ListNotations.
 Open Scope N_scope.
 From V.C03 Require Import Properties.
@@ -187,7 +187,12 @@ Check (C03_timeout_peer_poll :
   t_poll fuel t pin pout = (t1, pi1, po1) ->
   exists t1' pi1' po1', t_poll fuel t (pipe_close pin) pout = (t1', pi1', po1') /\
     ((t1' = t1 /\ pi1' = pipe_close pi1 /\ po1' = po1) \/
-     (t_ph t1' = TDone /\ (t_res t1' = t_res t1 \/ fst (t_res t1') <> 0)))).
+     (t_ph t1' = TDone /\
+      (fst (t_res t1') <> 0 \/
+       (t_res t1' = t_res t1 /\
+        exists acc, t_ph t1 = TRead NCompleted acc /\ t_got t1' = acc /\ t_end t1' = 0) \/
+       (t_res t1' = t_res t1 /\ t_end t1' <> 0 /\
+        exists g acc, t_ph t1 = TRead g acc /\ g <> NCompleted))))).
 Check (C03_timeout_dialer_result :
   forall c to_d to_l es, wf_case c ->
   forall i, t_res (s_d (ts_sys (trun to_d to_l es (tinit c)))) = (0, i) ->
@@ -201,6 +206,12 @@ Check (C03_timeout_both_ok_plain :
   let sa := ts_sys (trun to_d to_l es (tinit c)) in
   fst (t_res (s_d sa)) = 0 -> fst (t_res (s_l sa)) = 0 ->
   exists who, sa = polls who (sys_init c)).
+Check (C03_timeout_survivor_clean :
+  forall c, wf_case c -> forall to_d to_l es,
+  let sa := ts_sys (trun to_d to_l es (tinit c)) in
+  t_done (s_d sa) = true -> t_done (s_l sa) = true ->
+  fst (t_res (s_d sa)) <> 0 -> fst (t_res (s_l sa)) = 0 ->
+  t_got (s_l sa) = [] /\ t_end (s_l sa) = 0).
 Check (C03_timeout_terminates :
   forall c to_d to_l, wf_case c -> forall K es,
   tfair K es -> Phi (sys_init c) < N.of_nat K ->
@@ -293,3 +304,5 @@ Check (C03_substream_fallback_listener :
   exists n, first_common (c_ds c) (c_ls c) = Some n /\ nth_error (c_ls c) (N.to_nat j) = Some n /\
     exists m fb, report cfgL n = Some (m, fb) /\ In m (mains cfgL) /\
       (wf_cfg cfgL -> report cfgL n = spec cfgL n)).
+Check (C03_sub_oracle_accepts_model :
+  forall case : list N, ok_sub case (run_sub case) = true).
